@@ -9,7 +9,6 @@ import (
 	"os"
 	"strings"
 	"sync"
-	"syscall"
 	"time"
 
 	mcp "trpc.group/trpc-go/trpc-mcp-go"
@@ -516,10 +515,7 @@ func endToEnd(j e2eJob) (out e2eResult) {
 		}
 		out.res, out.err = cl.Initialize(ctx, nil)
 		out.state = cl.GetState()
-		// not cl.Close(): it can stall 5 s (see client.go); end the peer directly
-		if pid := cl.GetProcessID(); pid > 0 {
-			syscall.Kill(pid, syscall.SIGKILL)
-		}
+		endStdioPeer(cl, false) // not a bare cl.Close(): it can stall 5 s (see client.go)
 	}
 	return out
 }
